@@ -328,6 +328,13 @@ func histories(sameClient bool) func() {
 			} else {
 				accepted(n)
 			}
+			// the same value again through the service-side helper: an accepted
+			// write like the client's repeated SetLevel above, one more event
+			if err := w.Root.Helper.UpdateLevel(n); err != nil {
+				vrt.Failf("history-write-refused", "service-side UpdateLevel(%d) a second time failed (%s): %v", n, ctx(), err)
+			} else {
+				accepted(n)
+			}
 			if err := w.Root.Helper.UpdateLevel(-n); err == nil {
 				vrt.Failf("history-invalid-write-accepted", "service-side UpdateLevel(%d) succeeded (%s)", -n, ctx())
 			}
